@@ -188,6 +188,21 @@ def rule_own(env, shared):
                     role, a2 = R.classify(e.args[0])
                     if role == "store":
                         reads.append((b, e))
+        # a raw read inside a private function that is given the pointer as a parameter (`unsafe fn read_at(first: *const T,
+        # i: usize) -> T`): the move-out site is the caller that passes a pointer into the storage
+        direct = {(b_.def_, e_.bb) for (b_, e_) in reads}
+        for b in own_bodies:
+            for e in env.flat_events(b, F.impl_self_adt(b), w, max_depth=2):
+                if e.kind == "call" and e.info["chain"] and e.callee.key in (
+                        "std::ptr::const_ptr::read", "std::ptr::mut_ptr::read", "std::ptr::read") and e.args \
+                        and (e.body.def_, e.bb) not in direct and R.classify(e.args[0])[0] == "store" \
+                        and not (e.body.info or {}).get("exported") and F.impl_self_adt(e.body) in (adt, r.get("puller")) \
+                        and not any((b2.def_, e2.bb) == (b.def_, e.info["top_bb"]) for (b2, e2) in reads):
+                    # (only when the function holding the read cannot itself tell where the pointer comes from)
+                    hb_ctx = env.ctx(e.body, F.impl_self_adt(e.body), w)
+                    own_ptr = env.ev.operand(hb_ctx, e.body.term(e.bb)["args"][0])
+                    if R.classify(own_ptr)[0] != "store":
+                        reads.append((b, e))
         for (b, e) in reads:
             k = "OWN.a|%s|%s|move-out" % (nm, env.fname(b))
             root = F.bodies.get(b.root, b) if b.is_closure else b
